@@ -220,3 +220,22 @@ pub fn blob_mode(v: &Value) -> Value {
     let m = String::from_utf8(crate::bytes_of(&v["mode"])).unwrap();
     json!({"is_blob": git_ai::authorship::rebase_authorship::verif_hooks::is_blob_mode(&m)})
 }
+
+/// K5: {repo, commits: [sha..], pathspecs: [path..]}: what the rebase replay reads for each rewritten commit
+pub fn pair_contents(v: &Value) -> Value {
+    let repo = git_ai::git::find_repository_in_path(v["repo"].as_str().unwrap()).expect("repo");
+    let commits: Vec<String> = v["commits"].as_array().unwrap().iter().map(|x| x.as_str().unwrap().to_string()).collect();
+    let specs: Vec<String> = v["pathspecs"].as_array().unwrap().iter().map(|x| x.as_str().unwrap().to_string()).collect();
+    match git_ai::authorship::rebase_authorship::verif_hooks::changed_file_contents_for_commits(&repo, &commits, &specs) {
+        Err(e) => json!({"ok": false, "error": e.to_string()}),
+        Ok(m) => {
+            let mut out = serde_json::Map::new();
+            for (c, (changed, contents)) in m {
+                let mut ch: Vec<String> = changed.into_iter().collect();
+                ch.sort();
+                out.insert(c, json!({"changed": ch, "contents": contents}));
+            }
+            json!({"ok": true, "commits": out})
+        }
+    }
+}
